@@ -133,6 +133,40 @@ theorem list_signed_in_same_transaction (E : Env) (K : KeyEnv) (hE : EnvOK E) (w
 example : (credential exEnv 0 (step exEnv ⟨fun _ _ => none, fun _ _ _ => false⟩ exWorld (.entryTx false "did:a" none)).a "did:a" 1).isOk = true := by
   decide
 
+/-- `Credential` dereferences `*credRecord.Expires`; in every reachable state the record of a managed list has an expiry
+    (it was built by `updateCredential`), so serving a list never panics -/
+theorem credential_never_panics (E : Env) (K : KeyEnv) (hE : EnvOK E) (w0 : World) (h0 : WInv E w0) (acts : List Act)
+    (k : Bool) (issuer : String) (page : Nat) (s : String) :
+    credential E (run E K w0 acts).now ((run E K w0 acts).get k) issuer page ≠ .panic s := by
+  have hw := ((run_path (K := K) hE acts h0).nodes h0).1
+  have hn := hw.node k
+  generalize (run E K w0 acts).get k = n at hn
+  generalize (run E K w0 acts).now = now
+  intro h
+  unfold credential at h
+  simp only at h
+  cases hrow : n.page? (n.url issuer page) with
+  | none => rw [hrow] at h; cases h
+  | some row =>
+    rw [hrow] at h
+    simp only at h
+    have hm : n.isManaged (n.url issuer page) = true := by simp only [Node.isManaged, hrow]; rfl
+    obtain ⟨rec, hrec⟩ := hn.has _ hm
+    obtain ⟨_, _, _, t, _, _, _, hexp, _⟩ := hn.crec _ rec hm hrec
+    have hlen : ∀ i, i ∈ n.revsOf (n.url issuer page) → i ≤ E.maxIndex := hn.revsOf_le _
+    rw [hrec] at h
+    simp only [hexp] at h
+    split at h
+    · rename_i hc; split at hc <;> cases hc
+    · rename_i hc; split at hc <;> cases hc
+    · cases h
+    · split at h
+      · cases h
+      · rename_i kid _
+        obtain ⟨vc, rec', hup⟩ := updateCredential_ok E hE now row (n.revsOf (n.url issuer page)) kid hlen
+        rw [hup] at h
+        cases h
+
 /-! ### 4. a set bit is never cleared; revocation is idempotent -/
 
 /-- `set_monotone`: along every history the revoked positions of every list only grow … -/
@@ -331,7 +365,7 @@ theorem issuer_only_stmt_false : ¬ IssuerOnlyStmt := by
 /-- `issuer_only_partial`: the part of `IssuerOnlyStmt` that holds. Missing: credentials whose id is not prefixed by their
     issuer (accepted by the default validator; refused by the two Nuts validators, see `nuts_validators_enforce_prefix`). -/
 theorem issuer_only_partial (K : KeyEnv) (n n' : Node) (r : Revocation) (c : Cred) (id : String)
-    (h : registerRevocation K n r = .ok n') (hid : c.id = some id) (hs : id = r.subject) (hpre : prefixOf id = c.issuer) :
+    (h : registerRevocation K n r = .ok n') (_hid : c.id = some id) (hs : id = r.subject) (hpre : prefixOf id = c.issuer) :
     r.issuer = c.issuer := by
   obtain ⟨⟨_, _, _, h2, _⟩, _⟩ := issuer_only K n n' r h
   rw [← h2, ← hs, hpre]
